@@ -4,6 +4,7 @@
 //! microseconds < 10^6, no panic. A case is a chunk of inputs:
 //!   chunks 0..EXH            : exhaustive 0 .. EXH*CHUNK for both constructors
 //!   next 2*33 chunks         : +-2000 around 2^k * unit, k = 0..32, per constructor
+//!   next 2*64 chunks         : +-1500 around the raw powers of two 2^k, per constructor
 //!   next 2 chunks            : the largest admissible inputs and their neighbours
 //!   afterwards               : CHUNK random admissible inputs per case
 
@@ -106,6 +107,23 @@ impl Monitor for M {
             return;
         }
         let i = i - 66;
+        if i < 128 {
+            // +-span around the raw powers of two 2^k (not multiplied by the unit): width-related
+            // slips (a 32-bit fast path, a narrowing cast) live here
+            ctx.obs("chunks.raw_power_of_two");
+            let ms = i % 2 == 0;
+            let k = (i / 2) as u32;
+            let unit: u128 = if ms { 1000 } else { 1_000_000 };
+            let span: i128 = if light { 20 } else { 1500 };
+            for d in -span..=span {
+                let x = (1i128 << k) + d;
+                if x >= 0 && (x as u128) / unit < (1u128 << 32) {
+                    check(ctx, ms, x as u64);
+                }
+            }
+            return;
+        }
+        let i = i - 128;
         if i < 2 {
             ctx.obs("chunks.max_admissible");
             let ms = i == 0;
@@ -133,15 +151,34 @@ impl Monitor for M {
             if x / unit < (1u64 << 32) {
                 check(ctx, ms, x);
             }
+            // history on the same thread: the other constructor right afterwards with a
+            // numerically close raw count (state carried between calls must not leak across units)
+            if ctx.rng.chance(1, 4) {
+                let d = ctx.rng.below(1000);
+                let y = match ctx.rng.below(3) {
+                    0 => x.wrapping_add(d),
+                    1 => x.wrapping_sub(d),
+                    _ => (x / 1000) * 1000 + d,
+                };
+                let unit2: u64 = if ms { 1_000_000 } else { 1000 };
+                if y / unit2 < (1u64 << 32) {
+                    ctx.obs("history.other_unit_close_value");
+                    check(ctx, !ms, y);
+                    // and back again
+                    if x / unit < (1u64 << 32) {
+                        check(ctx, ms, x);
+                    }
+                }
+            }
         }
     }
 
     fn describe(&self, ctx: &Ctx) -> J {
         super::describe(
-            "inputs: every value 0..2*10^6 for both constructors (chunks 0..1999), +-2000 around 2^k*unit for k=0..32, the 3000 largest admissible inputs and top whole-second boundaries, then random admissible u64 (biased to second boundaries). distinct = (constructor, bit length of the input, sub-second class); non-trivial = input > 0",
+            "inputs: every value 0..2*10^6 for both constructors (chunks 0..1999), +-2000 around 2^k*unit for k=0..32, +-1500 around every raw power of two 2^k (k=0..63, admissible part), the 3000 largest admissible inputs and top whole-second boundaries, then random admissible u64 (biased to second boundaries); every 4th random input is followed on the same thread by the other constructor with a numerically close raw count and then by the first again (call histories). distinct = (constructor, bit length of the input, sub-second class); non-trivial = input > 0",
             &["admissible inputs are those with input / units-per-second < 2^32, as the property states"],
             &[("ok.from_ms", super::scaled(ctx, 1000)), ("ok.from_us", super::scaled(ctx, 1000))],
         )
-        .set("fixed_chunks", EXH + 68)
+        .set("fixed_chunks", EXH + 68 + 128)
     }
 }
